@@ -134,6 +134,7 @@ Scenario gen_c17(uint64_t seed) {
 	sc.readlink_fail = r.coin(1, 6);
 	sc.sigchld_ignored = r.coin(1, 16);
 	sc.stdin_closed = r.coin(1, 12);
+	sc.heap_fill = r.coin(1, 2) ? (int)r.below(3) : 0;
 	sc.output_symlink = r.coin(1, 10);
 	if (r.coin(1, 8)) { int n = 1 + (int)r.below(2); for (int i = 0; i < n; i++) sc.path_decoys.push_back(tool_name((int[]){PREPROCESS, CODEGEN, ASSEMBLE, LINK}[r.below(4)])); }
 	sc.pipe_cap = 1 + r.below(4);
@@ -323,6 +324,7 @@ Scenario gen_c18(uint64_t seed, uint64_t index, bool relaxed) {
 	if (dash >= 0) sc.stdin_stays_open = !sc.stdin_closed && r.coin(1, 2);
 	// the caller may have SIGTERM ignored or blocked; children inherit both through posix_spawn
 	if (r.coin(1, 8)) sc.sigterm_inherited = 1 + (int)r.below(2);
+	sc.heap_fill = r.coin(1, 2) ? (int)r.below(3) : 0;
 	sc.output_symlink = r.coin(1, 10);
 	if (r.coin(1, 12)) sc.path_decoys.push_back(tool_name((int[]){PREPROCESS, CODEGEN, ASSEMBLE, LINK}[r.below(4)]));
 	for (int i = 0; i < c.ninputs; i++) {
